@@ -11,7 +11,8 @@ from ..ref import reg
 from . import c04
 
 PID = "C10"
-WS = [" ", "\t", "\n", "\r\n", " "]
+WS = [" ", "\t", "\n", "\r\n", "\u00a0"]
+assert len(set(WS)) == 5
 RULE = ("texts: per country a valid IBAN (two fillers) and one invalid text per defect class (check "
         "digits, length, illegal character, unknown country); valid and invalid BIC bases. Variants: "
         "every gap x {space, tab, LF, CRLF, NBSP} inserted once and as a run of two, leading/trailing "
@@ -31,6 +32,14 @@ def ws_variants(text: str, tier: str):
             yield text[:p] + w + w + text[p:]
     for w in WS:
         yield w * 3 + text + w * 2
+    # every raw length up to 90: trailing, leading and inner runs, and every gap widened at once
+    for k in range(1, 91 - len(text)):
+        yield text + " " * k
+        yield " " * k + text
+        yield text[:4] + "\t" * k + text[4:]
+    for w in WS:
+        for rep in (1, 2, 3):
+            yield (w * rep).join(text)
     kinds = list(itertools.product(WS, WS)) if tier == "thorough" else [(" ", " "), ("\t", "\n")]
     for p, q in itertools.combinations(range(n + 1), 2):
         for a, b in kinds:
